@@ -290,15 +290,9 @@ fn check_amp(q: Q, single: bool, lit: &str, suffix: &str, spec: &str, obs: &Obs,
     Ok(())
 }
 
-fn check_db(q: Q, single: bool, lit: &str, suffix: &Option<String>, obs: &Obs, key: &Case) -> CheckResult {
-    obs.label("decibel");
-    obs.nontrivial(key);
-    let x = lit_value(single, lit);
-    let tok = match suffix {
-        Some(s) => Token::DecimalNumericSuffixProgramData(lit.as_bytes(), s.as_bytes()),
-        None => Token::DecimalNumericProgramData(lit.as_bytes()),
-    };
-    // (class, number, unit in base) — class 0 none, 1 linear, 2 logarithmic
+/// `Db<V, Q>` of a token: (class, number, unit in base) - class 0 none, 1 linear, 2 logarithmic;
+/// None for quantities without decibel forms.
+fn conv_db(q: Q, single: bool, tok: Token) -> Option<Result<(u8, f64, f64), Error>> {
     macro_rules! run_db {
         ($Q:ident, $m:ident, $base:ident) => {
             if single {
@@ -316,13 +310,24 @@ fn check_db(q: Q, single: bool, lit: &str, suffix: &Option<String>, obs: &Obs, k
             }
         };
     }
-    let got = match q {
+    Some(match q {
         Q::ElectricCurrent => run_db!(ElectricCurrent, electric_current, ampere),
         Q::ElectricPotential => run_db!(ElectricPotential, electric_potential, volt),
         Q::Power => run_db!(Power, power, watt),
         Q::Ratio => run_db!(Ratio, ratio, ratio),
-        _ => return Ok(()),
+        _ => return None,
+    })
+}
+
+fn check_db(q: Q, single: bool, lit: &str, suffix: &Option<String>, obs: &Obs, key: &Case) -> CheckResult {
+    obs.label("decibel");
+    obs.nontrivial(key);
+    let x = lit_value(single, lit);
+    let tok = match suffix {
+        Some(s) => Token::DecimalNumericSuffixProgramData(lit.as_bytes(), s.as_bytes()),
+        None => Token::DecimalNumericProgramData(lit.as_bytes()),
     };
+    let Some(got) = conv_db(q, single, tok) else { return Ok(()) };
     match suffix {
         None => match got {
             Ok((0, v, _)) => ensure!(v == x, "db-value", "Db<{q:?}> from {lit} = None({v:e}), literal is {x:e}"),
@@ -371,6 +376,12 @@ pub fn check(case: &Case, obs: &Obs) -> CheckResult {
             }
             if let Ok(v) = conv_amp(*q, *single, tok) {
                 fail!("non-numeric-accepted", "Amplitude<{q:?}> from {tok:?} = {v:?}");
+            }
+            if let Some(Ok(v)) = conv_db(*q, *single, tok) {
+                fail!("non-numeric-accepted", "Db<{q:?}> from {tok:?} = {v:?}");
+            }
+            if let Some(Ok(v)) = conv_mm_g(*q, tok) {
+                fail!("non-numeric-accepted", "{q:?} (mm-g unit system) from {tok:?} = {v:e}");
             }
             Ok(())
         }
@@ -472,12 +483,43 @@ fn case_strategy() -> impl Strategy<Value = Case> {
                 3 => (0usize..nd, 0u8..3, any::<u16>()).prop_map({ let dbs2 = dbs2.clone(); move |(i, mode, mask)| Some(recase(dbs2[i], mode, mask)) }),
                 2 => suffix_for(q),
             ]).prop_map(move |(lit, suffix)| Case::Decibel { q, single, lit, suffix }),
-            1 => (0u8..5, "[A-Za-z][A-Za-z0-9]{0,6}").prop_map(move |(kind, text)| Case::NonNumeric { q, single, kind, text }),
+            1 => (0u8..5, prop_oneof![2 => "[A-Za-z][A-Za-z0-9]{0,6}", 1 => nonnumeric_word()]).prop_map(move |(kind, text)| Case::NonNumeric { q, single, kind, text }),
         ]
     })
 }
 
+/// Words that mean something to other conversions (float keywords, numeric_value keywords, booleans), in
+/// short / long form and any case, and number-like text: none of them is a quantity when it arrives as
+/// character, string, block or expression data.
+const WORDS: &[&str] = &["MAX", "MAXimum", "MIN", "MINimum", "INF", "INFinity", "NINF", "NINFinity", "NAN", "DEF", "DEFault", "UP", "DOWN", "ON", "OFF", "AUTO", "ONCE", "V", "DBM", "W", "HZ", "S", "1", "1e3", "1 V", "0 DBM"];
+
+fn nonnumeric_word() -> impl Strategy<Value = String> {
+    (proptest::sample::select(WORDS.to_vec()), 0u8..3).prop_map(|(w, mode)| match mode {
+        0 => w.to_string(),
+        1 => w.to_ascii_uppercase(),
+        _ => w.to_ascii_lowercase(),
+    })
+}
+
 fn run(e: &Engine) {
+    // every such word x every quantity x f32 / f64 x every non-numeric element kind x three letter cases
+    let mut words: Vec<Case> = Vec::new();
+    for q in ALL_Q {
+        for w in WORDS {
+            for text in [w.to_string(), w.to_ascii_uppercase(), w.to_ascii_lowercase()] {
+                for kind in 0u8..4 {
+                    // (character data must be a mnemonic: letters first, no blanks)
+                    if kind == 0 && !(text.as_bytes()[0].is_ascii_alphabetic() && text.bytes().all(|c| c.is_ascii_alphanumeric())) {
+                        continue;
+                    }
+                    for single in [false, true] {
+                        words.push(Case::NonNumeric { q: *q, single, kind, text: text.clone() });
+                    }
+                }
+            }
+        }
+    }
+    e.fixed("keyword-and-number-text-as-non-numeric-elements", words, check);
     // every (quantity, storage, defined suffix) once with a plain literal, upper and lower case
     let mut fixed = Vec::new();
     for q in ALL_Q {
